@@ -80,6 +80,8 @@ let answer w obs =
     String.concat " " (List.map nlist (int_combinations (i2n (int_of_string n)) (i2n (int_of_string k)) b))
   | ["OSP"; n; k] ->
     String.concat " " (List.map (fun o -> String.concat "|" (List.map nlist o)) (osp (i2n (int_of_string n)) (i2n (int_of_string k))))
+  | ["OSPI"; n; k] ->
+    String.concat " " (List.map (fun o -> String.concat "|" (List.map nlist o)) (osp_iter (i2n (int_of_string n)) (i2n (int_of_string k))))
   | "L" :: scale :: rest ->
     let scale = parse_q scale in
     let (p, hint) = until_bar rest in
